@@ -43,25 +43,27 @@ PROPS = {
               "generate_code: Ok implies every readable file completely edited; failure flag reduced and consumed; main maps Err to non-zero"),
     "C11": _p(["find"], COMMON_TRUST + " CLAIMED FOR THE CONFIGURED-MACRO CLAUSE ONLY; comments / string literals are the grammar's COMMENT and string rules (not decided).",
               "macro_of_interest == exact name or module::name; find emits nothing for other names (result == tree_entries)"),
-    "C12": _p(["entry", "find"], "regex crate and str::parse::<u32> are exercised natively on the enumerated set only (BOUNDED, not proved). " + COMMON_TRUST,
+    "C12": _p(["entry", "find", "directive"], "regex crate and str::parse::<u32> are exercised natively on the enumerated set only (BOUNDED, not proved). " + COMMON_TRUST,
               "bounded-exhaustive conformance of the real extraction (through the real parser) to an oracle that Verus proved equal to the token rule and "
               "compiled; the inserted-token clause is proved (unit entry: C12.inserted; oracle lemma_inserted_token_reads_back)",
               level="exploration", extra=[("conformance", _c12.run)],
               technique="Verus-verified and Verus-compiled oracle (token rule == executable twin; inserted-token lemma) + bounded-exhaustive native conformance "
                         "run of the real code; the bounded part is labelled bounded"),
-    "C13": _p(["find", "generate", "entry"], COMMON_TRUST + " Relative to the pest parse tree (shape facts generated from the grammar) and str::parse::<u32> as a spec function.",
+    "C13": _p(["find", "generate", "entry", "directive"], COMMON_TRUST + " Relative to the pest parse tree (shape facts generated from the grammar) and str::parse::<u32> as a spec function.",
               "find's result is proved equal to tree_entries: first `ref` key with a value decides (parsed value or unusable), else `ref = ` at the first argument "
               "after any target with `, ` / `; `; unusable entries are skipped by all three processors"),
-    "C14": _p(["find"], COMMON_TRUST + " CLAIMED FOR WHERE THE DIRECTIVES ARE EVALUATED AND WHAT THEY SELECT; the line scan itself (str::lines/trim/to_lowercase, regex) "
-              "is the uninterpreted predicate directive_before.",
-              "ignore is evaluated at the macro-name start and removes the entry; no-kvp at the argument start and selects the message branch (result == tree_entries)"),
+    "C14": _p(["find", "directive"], COMMON_TRUST + " str::lines().rev() / trim / to_lowercase / Regex::captures are uninterpreted spec functions (std and regex-crate semantics assumed); "
+              "whether a comment *is* on the nearest earlier line is therefore relative to std's line splitting.",
+              "the scan is proved equal to directive_spec (skip the statement's own line, skip blank lines, the first non-blank line decides: no comment => false; "
+              "a capture group lower-cased and trimmed equal to the name => true); ignore is evaluated at the macro-name start and removes the entry; "
+              "no-kvp at the argument start and selects the message branch (find's result == tree_entries)"),
     "C15": _p(["context", "main", "generate", "finder"], COMMON_TRUST + " walkdir's traversal and symlink policy; std::path join/parent/extension semantics.",
               "discovered set == in_scope(walk entries, extensions) exactly (regular file, UTF-8, extension text equal); only those paths are rename targets; "
               "relative source_dir joined onto parent(--config); lock path = join(config dir, Breadlog.lock)"),
     "C16": _p(["context", "main", "generate", "finder"], COMMON_TRUST + " serde semantics for the attributes as written (contract generated from them).",
               "defaults proved for the default_* functions and carried through Context::new; use_cache false: no read, no write; unparsable or id-less lock ignored; "
               "config / source-dir errors give Err without changing fs"),
-    "C17": _p(["generate", "main", "context", "finder", "find"], COMMON_TRUST + " Panics or super-linear time inside pest, regex, serde_yaml are not covered.",
+    "C17": _p(["generate", "main", "context", "finder", "find", "directive"], COMMON_TRUST + " Panics or super-linear time inside pest, regex, serde_yaml are not covered.",
               "for every function under contract: no overflow, no out-of-range index/slice, unwrap only on Some/Ok, unreachable!() unreachable (needs the grammar "
               "shape facts), str slices on char boundaries, every loop terminates; unreadable files are skipped and the rest processed"),
     "C18": _p(["generate", "main", "finder"], COMMON_TRUST + " Delivery before the handlers exist; the OS.",
